@@ -1,0 +1,27 @@
+//go:build verif
+
+package util
+
+// Verification hooks (build tag "verif"): an installable interposer for the
+// integer file I/O that fan2go uses to talk to hwmon/file fans and sensors.
+
+// VerifReadInt, when set, is consulted first by ReadIntFromFile.
+// If handled is true, its result is returned to the caller.
+var VerifReadInt func(path string) (value int, err error, handled bool)
+
+// VerifWriteInt, when set, is consulted first by WriteIntToFile and WriteIntToFileAtomic.
+var VerifWriteInt func(value int, path string, atomic bool) (err error, handled bool)
+
+func verifReadInt(path string) (int, error, bool) {
+	if h := VerifReadInt; h != nil {
+		return h(path)
+	}
+	return 0, nil, false
+}
+
+func verifWriteInt(value int, path string, atomic bool) (error, bool) {
+	if h := VerifWriteInt; h != nil {
+		return h(value, path, atomic)
+	}
+	return nil, false
+}
